@@ -76,11 +76,17 @@ def server_info(crate, b, m):
                 cb = crate.by_path.get(rv['agg']['def'])
                 if cb and not cb[0].calls(pat='server::Grpc'):
                     c = cb[0]
+                    d['default_body'] = c
                     ins = c.calls(name='insert')
                     st_ok = any((constdef(c.origin(t['args'][1])) or '').endswith('GRPC_STATUS') and term_contains(c.origin(t['args'][2]), lambda y: y and y[0] == 'const' and y[1] == 12) for bb, t in ins)
                     ct_ok = any((constdef(c.origin(t['args'][1])) or '').endswith('CONTENT_TYPE') and (constdef(c.origin(t['args'][2])) or '').endswith('GRPC_CONTENT_TYPE') for bb, t in ins)
                     nb = c.calls(pat='Response', name='new')
                     dok = st_ok and ct_ok and len(nb) == 1
+                    # .. or spelled with the library's own writer: tonic::Status::unimplemented(..).into_http() (status 200, content-type
+                    # application/grpc, grpc-status 12 - the router's fallback does the same)
+                    ih_ = c.calls(pat='Status::into_http')
+                    if not dok and len(ih_) == 1 and is_call(strip_refs(c.origin(ih_[0][1]['args'][0])), pat='Status::unimplemented') and not ins:
+                        dok = True
                     detail = 'grpc-status 12: %r, content-type application/grpc: %r, Response::new: %d' % (st_ok, ct_ok, len(nb))
     d['default_ok'] = dok
     d['default_detail'] = detail
